@@ -6,10 +6,21 @@ set -u
 dir="$1"; wt="$2"; id="$3"
 cd "$wt" || exit 9
 git checkout -q -- . ; git clean -fdq -e '*.so' >/dev/null 2>&1
-rebuild() { /venv/bin/python setup.py -q build_ext -j16 --inplace >/dev/null 2>&1; }
+mode="${4:-plain}"     # "asan": the demo needs an AddressSanitizer build (made in a scratch directory from the worktree)
+# sources that are only #include'd (templates, mont.c) are not dependency-tracked by setup.py: touch everything
+rebuild() { touch src/*.c; /venv/bin/python setup.py -q build_ext -j16 --inplace >/dev/null 2>&1; }
+asan_dir=/tmp/asan-confirm-$$
+asan_build() { rm -rf $asan_dir; mkdir -p $asan_dir; cp -r setup.py compiler_opt.py src lib $asan_dir/; find $asan_dir/lib -name '*.so' -delete
+  (cd $asan_dir && CC=gcc CFLAGS="-fsanitize=address -fno-omit-frame-pointer -g -O1" LDFLAGS="-fsanitize=address" /venv/bin/python setup.py -q build_ext -j16 --inplace >/dev/null 2>&1); }
 touches_c=0; grep -q '^+++ b/src/' "$dir/patch.diff" && touches_c=1
 [ $touches_c = 1 ] && rebuild
-run_demo() { (cd "$dir" && PYTHONPATH="$wt/lib" timeout 900 /venv/bin/python demo.py >/tmp/confirm.$$.out 2>&1); echo $?; }
+run_demo() {
+  if [ "$mode" = asan ]; then
+    asan_build
+    (cd "$dir" && LD_PRELOAD=$(gcc -print-file-name=libasan.so) ASAN_OPTIONS=detect_leaks=0 PYTHONMALLOC=malloc PYTHONPATH="$asan_dir/lib" timeout 1800 /venv/bin/python demo.py >/tmp/confirm.$$.out 2>&1); echo $?
+  else
+    (cd "$dir" && PYTHONPATH="$wt/lib" timeout 1800 /venv/bin/python demo.py >/tmp/confirm.$$.out 2>&1); echo $?
+  fi; }
 d0=$(run_demo)
 git apply "$dir/patch.diff" || { echo "$id: patch does not apply"; exit 9; }
 [ $touches_c = 1 ] && rebuild
@@ -31,4 +42,4 @@ PY
 else
   echo "$id: NOT CONFIRMED"; tail -5 /tmp/confirm.$$.out
 fi
-rm -f /tmp/confirm.$$.out
+rm -rf /tmp/confirm.$$.out $asan_dir
